@@ -330,6 +330,17 @@ InstConst(i, n, b) ==
         /\ UNCHANGED <<cdict>>
         /\ Rec("instconst", [i |-> i, n |-> n, b |-> b], "ok", P', cdict, cells', I', {})
 
+\* `i.param.trigger(n)`: watchers run, nothing else changes -- in particular an instance that never set n keeps
+\* following the class (known finding: the implementation re-assigns the current value, which pins it)
+InstTrigger(i, n) ==
+  /\ "trigger" \in Acts /\ Step /\ i \in 1..Len(I) /\ n \in Names /\ Kind[n] = "plain" /\ Declared(I[i].cls, n) /\ ~EditOpen
+  /\ LET mk == I[i].ip[n] = 0 /\ P[Lookup(I[i].cls, n)].perinst IN
+     /\ P' = IF mk THEN Append(P, P[Lookup(I[i].cls, n)]) ELSE P
+     /\ I' = [I EXCEPT ![i].ip[n] = IF mk THEN Len(P) + 1 ELSE @]
+  /\ UNCHANGED <<cdict, cells>>
+  /\ Rec("insttrigger", [i |-> i, n |-> n], "ok", P', cdict, cells, I',
+         IF I[i].vals[n] = Unset THEN {"KF_TriggerPinsValue"} ELSE {})
+
 \* in-place mutation of the object currently held by instance i (or class c) under name n
 MutateInst(i, n) ==
   /\ "mutate" \in Acts /\ Step /\ i \in 1..Len(I) /\ Declared(I[i].cls, n) /\ InstVal(i, n).t = "cell"
@@ -375,6 +386,7 @@ Next ==
   \/ \E c \in CSet, n \in Names : ClassObjsAppend(c, n, 3)
   \/ \E c \in CSet, n \in AllNames : \E b \in {1, 2} : ClassMeta(c, n, b)
   \/ \E i \in 1..MaxInst, n \in AllNames, b \in BOOLEAN : InstConst(i, n, b)
+  \/ \E i \in 1..MaxInst, n \in Names : InstTrigger(i, n)
   \/ \E i \in 1..MaxInst, n \in AllNames : MutateInst(i, n)
   \/ \E c \in CSet, n \in AllNames : MutateClass(c, n)
   \/ \E i \in 1..MaxInst : EnterEdit(i) \/ ExitEdit(i, FALSE) \/ ExitEdit(i, TRUE)
